@@ -414,6 +414,31 @@ func (c *Ctx) tailZero() {
 	}
 	n := 0
 	for _, f := range c.moduleFuncs("boc") {
+		// clone idioms stored into a BitString buffer are bulk copies too
+		allInstrs(f, func(_ *ssa.BasicBlock, in ssa.Instruction) {
+			st, ok := in.(*ssa.Store)
+			if !ok || !isBufField(st.Addr) {
+				return
+			}
+			if _, cloned := freshBytes(st.Val); !cloned {
+				return
+			}
+			n++
+			key := fnName(f) + " bulk copy into BitString.buf"
+			aligned := false
+			allInstrs(f, func(_ *ssa.BasicBlock, in2 ssa.Instruction) {
+				if s2, ok := in2.(*ssa.Store); ok {
+					if tn, fn, ok := fieldOf(s2.Addr); ok && tn == "boc.BitString" && (fn == "len" || fn == "cap") {
+						if bo, ok := s2.Val.(*ssa.BinOp); ok && bo.Op == token.MUL {
+							if k, ok := constInt(bo.Y); ok && k == 8 {
+								aligned = true
+							}
+						}
+					}
+				}
+			})
+			c.check(aligned, R, key, st.Pos(), "len is set to 8*len(bytes): no partial last byte at the time of the copy", fnName(f)+" clones whole bytes into a BitString buffer whose bit length need not be a multiple of 8 and does not clear the bits after len")
+		})
 		allInstrs(f, func(_ *ssa.BasicBlock, in ssa.Instruction) {
 			cl, ok := in.(*ssa.Call)
 			if !ok {
